@@ -216,3 +216,29 @@ def weave_power_loops(body, op, view, inv_tmpl, counts, extra_inv=''):
         body = body[:st] + before + body[st:bo] + "\n" + inv + body[bo:bc + 1] + after + body[bc + 1:]
         counts['loops'] = counts.get('loops', 0) + 1
     return body
+
+
+def rewrite_for_iter(body, counts, specs):
+    """R1 (the Rust reference's definition of `for`):
+         for PAT in EXPR { B }   ->   let mut itN = EXPR; <ghost_before> loop <invariant> { match itN.next() { Some(PAT) => { B <ghost_arm> } None => { break; } } }
+    applied to the loops whose EXPR is not a range (`a..b`).  specs: list (by ordinal among those loops) of dicts
+    with keys invariant (text using {it}), ghost_before, ghost_arm, ghost_after."""
+    loops = [l for l in find_loops(body) if body[l[0]:l[0] + 3] == 'for']
+    targets = []
+    for (st, bo, bc) in loops:
+        m = re.fullmatch(r'for\s+(.+?)\s+in\s+(.+?)\s*', body[st:bo], re.S)
+        if not m or re.search(r'\.\.', m.group(2)):
+            continue
+        targets.append((st, bo, bc, m.group(1), m.group(2)))
+    if len(targets) != len(specs):
+        raise AnchorLost(f"iterator-loop count changed: {len(targets)} in code, {len(specs)} specified")
+    for k in range(len(targets) - 1, -1, -1):
+        st, bo, bc, pat, expr = targets[k]
+        sp = specs[k]
+        it = f"it{k + 1}"
+        inner = body[bo + 1:bc]
+        new = (f"let mut {it} = {expr}; {sp.get('ghost_before', '').replace('{it}', it)}\n loop\n{sp['invariant'].replace('{it}', it)}\n{{ match {it}.next() {{ Some({pat}) => {{ "
+               f"{inner} {sp.get('ghost_arm', '').replace('{it}', it)} }} None => {{ break; }} }} }} {sp.get('ghost_after', '').replace('{it}', it)}")
+        body = body[:st] + new + body[bc + 1:]
+        counts['R1'] = counts.get('R1', 0) + 1
+    return body
